@@ -249,7 +249,14 @@ def run(ctx: Ctx):
     ctx.check(okd, "R01.f", fd.key("complete"), "every `variable` subtree is a dependency", "Expression._find_dependencies does not record every `variable` node of the expression tree (a used name could be missing from the dependency graph and be defined after its use)", fd.where())
     sa = sm.func("ode.py", "sort_assignments")
     adds = [c for c in ast.walk(sa.node) if isinstance(c, ast.Call) and norm(c.func) == "sorter.add"]
-    oka = bool(adds) and norm(adds[0].args[0]).endswith(".name") and isinstance(adds[0].args[1], ast.Starred) and "dependencies" in norm(adds[0].args[1]) and norm(adds[0].args[0]).split(".")[0] == norm(adds[0].args[1]).split("(")[-1].split(".")[0].lstrip("*")
+    oka = bool(adds) and len(adds[0].args) == 2 and norm(adds[0].args[0]).endswith(".name") and isinstance(adds[0].args[1], ast.Starred)
+    if oka:
+        av = norm(adds[0].args[0]).split(".")[0]
+        star = adds[0].args[1].value
+        srcs = {norm(star)}
+        for nm in [x.id for x in ast.walk(star) if isinstance(x, ast.Name)]:
+            srcs |= {norm(a.value) for a in ast.walk(sa.node) if isinstance(a, (ast.Assign, ast.AnnAssign)) and a.value is not None and any(isinstance(t, ast.Name) and t.id == nm for t in (a.targets if isinstance(a, ast.Assign) else [a.target]))}
+        oka = any(f"{av}.value.dependencies" in s_ for s_ in srcs)
     so = any(isinstance(c, ast.Call) and norm(c.func) == "sorter.static_order" for c in ast.walk(sa.node))
     ctx.check(oka and so, "R01.f", sa.key("node-predecessors"), "sorter.add(name, *dependencies of that assignment); static_order()", "sort_assignments does not feed graphlib with (assignment name, *its own dependencies) or does not use static_order(): definitions could be printed after their use", sa.where())
     cg = sm.func("codegen/base.py", "CodeGenerator.rhs")
@@ -273,10 +280,10 @@ def run(ctx: Ctx):
     ctx.check(kws.get("states") == "states" and kws.get("parameters") == "parameters" and kws.get("values") == "values" and kws.get("name", "").strip("'\"") == "rhs", "R01.f", cg.key("template-wiring"), "unpacking and body reach their own template slots", f"CodeGenerator.rhs passes {kws} to the method template", cg.where())
 
     # ---- R01.i the derivative of each state lands in that state's slot --------------------------------
-    ctx.rule("R01.i", "rhs stores the derivative of each state at the slot that state_index / init_state_values / the state unpacking use (STATE slot family)", floor=11)
+    ctx.rule("R01.i", "rhs stores the derivative of each state at the slot that state_index / init_state_values / the state unpacking use (STATE slot family)", floor=6)
     from .c04 import slot_families
 
-    slot_families(ctx, "R01.i", only_family="STATE")
+    slot_families(ctx, "R01.i", only_family="STATE", floor=False, producers=lambda p: p.func.qualname in ("CodeGenerator.initial_state_values", "CodeGenerator._state_assignments", "CodeGenerator.rhs"))
 
     # ---- R01.g time aliases -------------------------------------------------------------------------------
     ctx.rule("R01.g", "`t` and `time` both denote the one time symbol, which is the formal argument t of the generated functions", floor=3)
@@ -296,6 +303,8 @@ def run(ctx: Ctx):
     ctx.rule("R01.h", "NumPy printer coverage: every producible class resolves to a vetted correct method or to a gotranx method with the right numpy function and operand structure", floor=40)
     kf = M.class_table("numpy", "_kf") or {}
     for mod, name in pm.P_CLASSES:
+        if name in ("sign", "DiracDelta"):
+            continue  # only differentiation in the schemes produces them; rhs never contains them
         r = M.resolve("numpy", mod, name)
         key = f"numpy-printer::{name}"
         if not r.is_gotranx:
@@ -319,8 +328,6 @@ def run(ctx: Ctx):
         check_nested(ctx, "R01.h", nf)
     eq = M.method("numpy", "_print_Equality")
     ctx.check(eq is not None and "({self._print(lhs)} == {self._print(rhs)})" in pm.fragments(eq), "R01.h", "numpy-printer::Equality::text", "(lhs == rhs)", "numpy printer: Equality is not printed as (lhs == rhs)", eq.where() if eq else "")
-    sg = M.method("numpy", "_print_sign")
-    ctx.check(sg is not None and "numpy.sign" in pm.fragments(sg) and "{f}({e})" in pm.fragments(sg), "R01.h", "numpy-printer::sign::text", "numpy.sign(x)", "numpy printer: sign is not printed as numpy.sign(x)", sg.where() if sg else "")
     hp = M.method("numpy", "_hprint_Pow")
     a = hp.node.args if hp else None
     oksq = hp is not None and any(isinstance(dv, ast.Constant) and dv.value == "numpy.sqrt" for dv in a.defaults) and any(isinstance(n, ast.Return) and norm(n.value) == "super()._hprint_Pow(expr, rational, sqrt)" for n in ast.walk(hp.node))
